@@ -19,6 +19,8 @@ EXPLANATION = (
     ' The per-class effect is computed on every path through reverse(): an `if` forks the symbolic state and'
     ' each path must be a reversal (an early return that skips the exchange or the negation of the sweep is'
     ' reported with its condition).'
+    ' R16.2: the forward scan of Path._validate_subpath (used when reverse re-assembles the subpaths) leaves at'
+    ' the first Move, before its Close case.'
 )
 TECHNIQUE = (
     "static analysis (no execution): field effects of every reverse() evaluated symbolically (swap/negate); alias-aware structural rules for reversal order and re-linking; window confinement of validator indices; cache coherence"
